@@ -54,6 +54,7 @@ func (t *dbTracker) add(r *dbResource) {
 	defer t.mu.Unlock()
 
 	t.resources[r] = struct{}{}
+	vh("dep.added", r)
 }
 
 func (t *dbTracker) remove(r *dbResource) {
@@ -96,8 +97,8 @@ func (t *dbTracker) registerDependency(ctx context.Context, schema *sqlgen.Schem
 
 	reactive.AddDependency(ctx, r.resource, QueryDependency{Table: table, Filter: filter})
 
+	vh("dep.new", r, table, filter)
 	t.add(r)
-	vh("dep.registered", r, table, filter)
 	return nil
 }
 
